@@ -879,7 +879,7 @@ DLLIMPORT cfg_value_t *cfg_setopt(cfg_t *cfg, cfg_opt_t *opt, const char *value)
 		return NULL;
 	}
 
-	if (opt->simple_value.ptr || opt->type == CFGT_SEC)
+	if (opt->simple_value.ptr)
 		return cfg_setopt_value(cfg, opt, value);
 
 	/*
@@ -917,6 +917,7 @@ DLLIMPORT cfg_value_t *cfg_setopt(cfg_t *cfg, cfg_opt_t *opt, const char *value)
 static cfg_value_t *cfg_setopt_value(cfg_t *cfg, cfg_opt_t *opt, const char *value)
 {
 	cfg_value_t *val = NULL;
+	cfg_t *sec;
 	int b;
 	const char *s;
 	double f;
@@ -1080,51 +1081,54 @@ static cfg_value_t *cfg_setopt_value(cfg_t *cfg, cfg_opt_t *opt, const char *val
 
 	case CFGT_SEC:
 		if (is_set(CFGF_MULTI, opt->flags) || val->section == NULL) {
+			/* build the new section completely before it replaces an old one */
+			sec = calloc(1, sizeof(cfg_t));
+			if (!sec)
+				return NULL;
+
+			sec->name = strdup(opt->name);
+			if (!sec->name) {
+				free(sec);
+				return NULL;
+			}
+
+			sec->flags = cfg->flags;
+			if (is_set(CFGF_KEYSTRVAL, opt->flags))
+				sec->flags |= CFGF_KEYSTRVAL;
+
+			sec->filename = cfg->filename ? strdup(cfg->filename) : NULL;
+			if (cfg->filename && !sec->filename) {
+				free(sec->name);
+				free(sec);
+				return NULL;
+			}
+
+			sec->line = cfg->line;
+			sec->errfunc = cfg->errfunc;
+			sec->title = value ? strdup(value) : NULL;
+			if (value && !sec->title) {
+				free(sec->filename);
+				free(sec->name);
+				free(sec);
+				return NULL;
+			}
+
+			sec->opts = cfg_dupopt_array(opt->subopts);
+			if (!sec->opts) {
+				if (sec->title)
+					free(sec->title);
+				if (sec->filename)
+					free(sec->filename);
+				free(sec->name);
+				free(sec);
+				return NULL;
+			}
+
 			if (val->section) {
 				val->section->path = NULL; /* Global search path */
 				cfg_free(val->section);
 			}
-			val->section = calloc(1, sizeof(cfg_t));
-			if (!val->section)
-				return NULL;
-
-			val->section->name = strdup(opt->name);
-			if (!val->section->name) {
-				free(val->section);
-				return NULL;
-			}
-
-			val->section->flags = cfg->flags;
-			if (is_set(CFGF_KEYSTRVAL, opt->flags))
-				val->section->flags |= CFGF_KEYSTRVAL;
-
-			val->section->filename = cfg->filename ? strdup(cfg->filename) : NULL;
-			if (cfg->filename && !val->section->filename) {
-				free(val->section->name);
-				free(val->section);
-				return NULL;
-			}
-
-			val->section->line = cfg->line;
-			val->section->errfunc = cfg->errfunc;
-			val->section->title = value ? strdup(value) : NULL;
-			if (value && !val->section->title) {
-				free(val->section->filename);
-				free(val->section->name);
-				free(val->section);
-				return NULL;
-			}
-
-			val->section->opts = cfg_dupopt_array(opt->subopts);
-			if (!val->section->opts) {
-				if (val->section->title)
-					free(val->section->title);
-				if (val->section->filename)
-					free(val->section->filename);
-				free(val->section->name);
-				free(val->section);
-				return NULL;
-			}
+			val->section = sec;
 
 			/* defaults are for a new section, not for one that is re-opened */
 			if (!is_set(CFGF_DEFINIT, opt->flags))
